@@ -7,6 +7,7 @@ the option."""
 from __future__ import annotations
 
 import random
+import zlib
 import re
 from typing import Any
 
@@ -216,7 +217,13 @@ def _run_es(case: dict, env: core.Env, fa: Any, fb: Any) -> None:
     a_exc = None
     cursors: Any = None
     try:
-        cursors = ca.execute_string(text, cursor_class=cls, return_cursors=case["return_cursors"])
+        # remove_comments says what happens to comments, and to comments only: what the statements do stays the same
+        rc_arg = case.get("remove_comments")
+        if rc_arg is None:
+            rc_arg = [None, True, False][zlib.crc32(text.encode("utf-8", "replace")) % 3]
+        env.cover("remove_comments", str(rc_arg))
+        kw = {} if rc_arg is None else {"remove_comments": rc_arg}
+        cursors = ca.execute_string(text, cursor_class=cls, return_cursors=case["return_cursors"], **kw)
     except Exception as e:  # noqa: BLE001
         a_exc = core.exc_info(e)
     tag = "with-failing-stmt" if fail_at is not None else "all-ok"
